@@ -7,7 +7,7 @@ class GenProblem(Problem):
     """f_k(x) = sum_j a_kj (x_j - c_kj)^2 (+ rounding to `grid` to create exact ties),
     g_k(x) = b_k . x - t_k (inequality <= 0), h_k(x) = e_k . x - s_k (equality)."""
 
-    def __init__(self, n_var, n_obj=1, n_ieq=0, n_eq=0, xl=None, xu=None, seed=0, grid=None, shift=0.0):
+    def __init__(self, n_var, n_obj=1, n_ieq=0, n_eq=0, xl=None, xu=None, seed=0, grid=None, shift=0.0, fscale=None):
         super().__init__(n_var=n_var, n_obj=n_obj, n_ieq_constr=n_ieq, n_eq_constr=n_eq,
                          xl=None if xl is None else np.array(xl, dtype=float),
                          xu=None if xu is None else np.array(xu, dtype=float))
@@ -23,13 +23,17 @@ class GenProblem(Problem):
         self.S = self.E @ mid
         self.grid = grid
         self.scale = np.maximum(hi - lo, 1e-9)
-        self.gp = dict(n_var=n_var, n_obj=n_obj, n_ieq=n_ieq, n_eq=n_eq, xl=xl, xu=xu, seed=seed, grid=grid, shift=shift)
+        # objectives on very different scales (a cost of order 1e16 next to an O(1) term): scale applied after the rounding
+        self.fscale = None if fscale is None else np.array(fscale, dtype=float)[:n_obj]
+        self.gp = dict(n_var=n_var, n_obj=n_obj, n_ieq=n_ieq, n_eq=n_eq, xl=xl, xu=xu, seed=seed, grid=grid, shift=shift, fscale=fscale)
 
     def _evaluate(self, x, out, *args, **kwargs):
         z = (x[:, None, :] - self.C[None, :, :]) / self.scale
         F = (self.A[None, :, :] * z * z).sum(axis=2)
         if self.grid:
             F = np.round(F / self.grid) * self.grid
+        if self.fscale is not None:
+            F = F * self.fscale
         out["F"] = F
         if self.n_ieq_constr > 0:
             G = (x @ self.B[:self.n_ieq_constr].T - self.T[:self.n_ieq_constr]) / self.scale.mean()
